@@ -23,11 +23,29 @@ deriving DecidableEq, Repr
 
 abbrev Plan := Nat → Nat → Fault
 
-/-- the except clauses of the source -/
+/-- the parent's ends of the three pipes to one helper (`Popen(stdin=PIPE, stdout=PIPE, stderr=PIPE)`) -/
+inductive Stream
+  | stdin
+  | stdout
+  | stderr
+deriving DecidableEq, Repr
+
+def Stream.all : List Stream := [.stdin, .stdout, .stderr]
+
+def Stream.ofName? (n : String) : Option Stream :=
+  if n = "process.stdin" then some .stdin
+  else if n = "process.stdout" then some .stdout
+  else if n = "process.stderr" then some .stderr
+  else none
+
+/-- the except clauses of the source and the shape of the close loop of `_cleanup_process` -/
 structure Cfg where
   dumpCatch : List String   -- `_send`, around `pickle_dump`
   loadCatch : List String   -- `_send`, around `pickle_load`
   envCatch  : List String   -- `Environment._get_subprocess`, around the handshake
+  closeStreams : List Stream := Stream.all  -- `for stream in [...]` of `_cleanup_process`
+  closePerStream : Bool := true             -- the `try/except` is INSIDE that loop (one per stream)
+  closeCatch : List String := ["OSError"]   -- its except clause (the handler body is `pass`)
 deriving Repr
 
 /-- CPython class hierarchy of the exception classes that occur (how an `except` clause matches) -/
@@ -64,20 +82,72 @@ structure Proc where
   child : List Nat := []    -- keys of `Listener._inference_states`
   nreq : Nat := 0           -- requests the helper has read so far
   announced : List Nat := []-- ghost: every state id ever written to the helper
+  fds : List Stream := []   -- the parent's pipe ends to this helper that are still open (file descriptors)
+  broken : List Stream := []-- streams whose `close()` raises `BrokenPipeError` (stdin: an unflushed
+                            -- request is still buffered for a reader that is gone)
 deriving Repr
 
-/-- calling the `weakref.finalize` object: runs `_cleanup_process` at most once -/
-def Proc.cleanup (p : Proc) : Proc :=
+/-- `stream.close()` of one of the three pipe objects: what it raises.  The file descriptor is
+released in either case (CPython's buffered `close()` closes the raw file also when the final
+flush fails). -/
+abbrev CloseRaises := Stream → Option String
+
+/-- `for stream in streams: try: stream.close() except <catch>: pass` - the try/except INSIDE the
+loop.  Result: the descriptors still open, the exception that escapes the loop. -/
+def closeEach (clause : List String) (raises : CloseRaises) : List Stream → List Stream → List Stream × Option String
+  | [], fds => (fds, none)
+  | s :: rest, fds =>
+    let fds' := fds.filter (· != s)
+    match raises s with
+    | none => closeEach clause raises rest fds'
+    | some cls => if caught cls clause then closeEach clause raises rest fds' else (fds', some cls)
+
+/-- `try: for stream in streams: stream.close() except <catch>: pass` - ONE try/except around the
+whole loop: the first `close()` that raises ends the loop. -/
+def closeUntilRaise (clause : List String) (raises : CloseRaises) : List Stream → List Stream → List Stream × Option String
+  | [], fds => (fds, none)
+  | s :: rest, fds =>
+    let fds' := fds.filter (· != s)
+    match raises s with
+    | none => closeUntilRaise clause raises rest fds'
+    | some cls => (fds', if caught cls clause then none else some cls)
+
+/-- the close loop of `_cleanup_process` in the shape the source has -/
+def closeLoop (cfg : Cfg) (raises : CloseRaises) (fds : List Stream) : List Stream × Option String :=
+  if cfg.closePerStream then closeEach cfg.closeCatch raises cfg.closeStreams fds
+  else closeUntilRaise cfg.closeCatch raises cfg.closeStreams fds
+
+def Proc.closeRaises (p : Proc) : CloseRaises :=
+  fun s => if p.broken.contains s then some "BrokenPipeError" else none
+
+/-- calling the `weakref.finalize` object: runs `_cleanup_process` at most once (kill, wait, join,
+close loop).  Second component: the exception that escapes from it. -/
+def Proc.cleanupX (cfg : Cfg) (p : Proc) : Proc × Option String :=
   if p.armed then
-    { p with armed := false, cleanups := p.cleanups + 1, alive := false, reaped := true, child := [] }
-  else p
+    let r := closeLoop cfg p.closeRaises p.fds
+    ({ p with armed := false, cleanups := p.cleanups + 1, alive := false, reaped := true, child := [],
+              fds := r.1 }, r.2)
+  else (p, none)
 
-/-- `CompiledSubprocess._kill` -/
-def Proc.kill (p : Proc) : Proc := { p.cleanup with crashed := true }
+def Proc.cleanup (cfg : Cfg) (p : Proc) : Proc := (p.cleanupX cfg).1
 
-/-- `CompiledSubprocess._get_process` (memoised) -/
+/-- `CompiledSubprocess._kill`: `is_crashed = True`, then the finalizer -/
+def Proc.kill (cfg : Cfg) (p : Proc) : Proc := { p.cleanup cfg with crashed := true }
+
+/-- what the `except` handler of `_send` raises after `self._kill()`: `InternalError`, unless an
+exception escaped from the finalizer (then that one propagates out of the handler) -/
+def Proc.killOut (cfg : Cfg) (p : Proc) : Out :=
+  match (p.cleanupX cfg).2 with
+  | some cls => .raised cls
+  | none => .raised "InternalError"
+
+/-- `CompiledSubprocess._get_process` (memoised): Popen with three pipes -/
 def Proc.start (p : Proc) : Proc :=
-  if p.started then p else { p with started := true, alive := true, armed := true }
+  if p.started then p else { p with started := true, alive := true, armed := true, fds := Stream.all }
+
+/-- `pickle_dump` raised `BrokenPipeError` in its `flush()`: the request stays in the buffer of the
+`stdin` object, whose `close()` will try to flush it again -/
+def Proc.writeFailed (p : Proc) : Proc := { p with broken := .stdin :: p.broken }
 
 /-- the OS process dies -/
 def Proc.die (p : Proc) : Proc := { p with alive := false, child := [] }
@@ -103,7 +173,7 @@ def childServe (child : List Nat) : Req → List Nat × Bool
 
 /-- the parent's `pickle_load` raised `cls` -/
 def loadFails (cfg : Cfg) (p : Proc) (cls : String) : Proc × Out :=
-  if caught cls cfg.loadCatch then (p.kill, .raised "InternalError") else (p, .raised cls)
+  if caught cls cfg.loadCatch then (p.kill cfg, p.killOut cfg) else (p, .raised cls)
 
 def Proc.received (p : Proc) (r : Req) : Proc :=
   { p with nreq := p.nreq + 1, announced := r.sid.toList ++ p.announced }
@@ -114,8 +184,9 @@ def send (cfg : Cfg) (plan : Plan) (p : Proc) (r : Req) : Proc × Out :=
   let p := p.start
   match (if p.alive then plan p.idx p.nreq else Fault.beforeSend) with
   | .beforeSend =>
-    if caught "BrokenPipeError" cfg.dumpCatch then (p.die.kill, .raised "InternalError")
-    else (p.die, .raised "BrokenPipeError")
+    let p := p.die.writeFailed
+    if caught "BrokenPipeError" cfg.dumpCatch then (p.kill cfg, p.killOut cfg)
+    else (p, .raised "BrokenPipeError")
   | .afterSend => loadFails cfg (p.received r).die "EOFError"
   | .raisesFatal => loadFails cfg (p.received r).die "EOFError"
   | .trunc cls => loadFails cfg (p.received r).die cls
@@ -183,7 +254,7 @@ inductive Op
   | sysPath             -- `Environment.get_sys_path` on a memo miss
   | call (s : Nat)      -- any `inference_state.compiled_subprocess.<function>(...)`
   | drop (s : Nat)      -- `InferenceStateSubprocess.__del__`
-  | dropEnv             -- the `Environment` and its helpers are garbage collected
+  | dropEnv             -- the `Environment`, its helpers and every Script bound to them are garbage collected
 deriving DecidableEq, Repr
 
 def step (cfg : Cfg) (plan : Plan) (e : Env) : Op → Env × Out
@@ -222,7 +293,10 @@ def step (cfg : Cfg) (plan : Plan) (e : Env) : Op → Env × Out
       | none => (e, .ok)
       | some p =>
         if i.used && !p.crashed then (e.setProc { p with queue := s :: p.queue }, .ok) else (e, .ok)
-  | .dropEnv => ({ e with procs := e.procs.map Proc.cleanup }, .ok)
+  | .dropEnv =>
+    -- the finalizers run; then the `Popen` objects and their three file objects are deallocated,
+    -- which releases whatever descriptor the close loop left open
+    ({ e with procs := e.procs.map fun p => { p.cleanup cfg with fds := [] } }, .ok)
 
 /-- run a trace; every outcome is recorded -/
 def exec (cfg : Cfg) (plan : Plan) : Env → List Op → Env × List Out
